@@ -193,30 +193,33 @@ def t6(ctx, prog, f, sem, tp):
 
 # ----------------------------------------------------------------------------- T7: the insertion decision procedure
 
-def t7(ctx, prog, T):
-    """insert_back_prioritized decides between error / descend into the last child / rotate / plain push from the operator
-    tables only.  All its paths are enumerated with symbolic operators (self S, last child L, inserted node N); the resulting
-    decision function is evaluated for every combination of operator-kind classes and compared with the reference decision of
-    precedence climbing derived from the documented rules:
-      enter(S,N)   = prec S < prec N  or  N prefix-like  or  S is the insertion root  or  (prec S = prec N and both right-to-left)
-      descend(L,N) = prec L < prec N  or  N prefix-like  or  (prec L = prec N and both right-to-left)
-      not enter -> error; S leaf -> error; S complete: descend -> recurse into L, else N leaf/group -> error, else rotate
-      (N adopts L as its left operand); S incomplete: N binary -> error, else push.
-    Together with T1-T3 (the tables) this fixes every single insertion step; the induction over the token sequence is not mechanised."""
+class InsertionError(Exception):
+    def __init__(self, kind, msg, span):
+        Exception.__init__(self, msg)
+        self.kind, self.msg, self.span = kind, msg, span
+
+
+class InsertionUnknown(Exception):
+    pass
+
+
+def compile_insertion(prog, T):
+    """The decision function of Node::insert_back_prioritized: all its paths are enumerated with symbolic operators (self S, last child
+    L, inserted node N) and a symbolic number of children of self; returns (f, decide, number of paths) where
+    decide(dict(S=kind, L=kind, N=kind, R=is_root, sclen=children of S)) is the set of outcomes among error / descend / rotate / push /
+    panic whose path conditions hold. decide raises InsertionUnknown on a condition that is not a function of the tables."""
     from absint import Interp, ADT, SYM, C, fmt, is_adt, Budget
     from rules.treepaths import opaque_hook
     f = prog.fn('tree::Node::<NumericTypes>::insert_back_prioritized')
     if f is None:
-        ctx.unrecognised('T7', 'insert_back_prioritized', 'missing', 'not found')
-        return
+        raise InsertionError('missing', 'not found', None)
     node_adt = prog.adt('tree::Node')
     S = ADT(node_adt['path'], 0, 'Node', [SYM('S'), SYM('SC')])
     N = ADT(node_adt['path'], 0, 'Node', [SYM('N'), SYM('NC')])
     try:
         paths = Interp(prog, hook=opaque_hook(opaque={'insert_back_prioritized'}), max_steps=600000).paths(f, [S, N, SYM('R')])
     except Budget:
-        ctx.unrecognised('T7', 'insert_back_prioritized', 'budget', 'too complex for path enumeration', span=f.span)
-        return
+        raise InsertionError('budget', 'too complex for path enumeration', f.span)
 
     def who(term):
         """which operator a term talks about: 'S', 'N' or 'L' (the last child of self)"""
@@ -235,8 +238,7 @@ def t7(ctx, prog, T):
 
     ORDERING = {'Less': ('ord', -1), 'Equal': ('ord', 0), 'Greater': ('ord', 1)}
 
-    class Unknown(Exception):
-        pass
+    Unknown = InsertionUnknown
 
     def sc_of(term):
         """'S' / 'N' when the term is the child list of self / of the inserted node"""
@@ -287,6 +289,12 @@ def t7(ctx, prog, T):
             if base == 'cmp' and len(args) == 2:
                 x, y = comp(args[0]), comp(args[1])
                 return lambda a: ('ord', (x(a) > y(a)) - (x(a) < y(a)))
+            if base == 'discriminant' and len(args) == 1 and args[0][0] == 'app' and args[0][1].split('::')[-1].split('#')[0] in ('last', 'last_mut', 'first', 'first_mut', 'pop') \
+                    and len(args[0][2]) == 1 and sc_of(args[0][2][0]) == 'S':
+                # whether self has a last child at all: Some exactly when the child list is not empty at that point (for `pop`, the
+                # point before the pop: `delta` already counts it)
+                extra = 1 if args[0][1].split('::')[-1].split('#')[0] == 'pop' else 0
+                return lambda a: 1 if a['sclen'] + delta + extra > 0 else 0
             if base == 'discriminant' and len(args) == 1 and args[0][0] == 'app' and args[0][1].split('::')[-1].split('#')[0] == 'cmp':
                 x = comp(args[0])
                 return lambda a: {-1: 255, 0: 0, 1: 1}[x(a)[1]]
@@ -324,6 +332,9 @@ def t7(ctx, prog, T):
             for e in eff:
                 if e[0] == '<branch>':
                     conds.append((comp_d(e[2][0], delta), e[2][1]))
+                    v_ = e[2][0]
+                    if e[2][1] == C(0) and v_[0] == 'app' and v_[1] == 'discriminant' and v_[2][0][0] == 'app' and v_[2][0][1].split('::')[-1].split('#')[0] == 'pop' and v_[2][0][2] == (SYM('SC'),):
+                        delta += 1   # a pop that returned None removed nothing
                 elif e[0].split('::')[-1] in ('pop', 'push') and 'Vec' in e[0] and e[2] and e[2][0] == SYM('SC'):
                     delta += 1 if e[0].endswith('push') else -1
             calls = [e[0].split('::')[-1] for e in eff if not e[0].startswith('<')]
@@ -333,13 +344,13 @@ def t7(ctx, prog, T):
                 out = 'descend'
             elif is_adt(ret, 'result::Result', 'Ok'):
                 out = 'rotate' if 'pop' in calls else 'push'
+            elif ret == ('diverge',):
+                out = 'panic'
             else:
                 out = '?'
             compiled.append((conds, out))
     except Unknown as e:
-        ctx.unrecognised('T7', 'insert_back_prioritized', 'condition', 'a branch condition of the insertion procedure is not a function of the operator tables: %s' % e, span=f.span)
-        return
-    ctx.counters['insert_decision_paths'] = len(compiled)
+        raise InsertionError('condition', 'a branch condition of the insertion procedure is not a function of the operator tables: %s' % e, f.span)
 
     def decide(a):
         hits = set()
@@ -353,6 +364,27 @@ def t7(ctx, prog, T):
             else:
                 hits.add(out)
         return hits
+
+    return f, decide, len(compiled)
+
+
+def t7(ctx, prog, T):
+    """insert_back_prioritized decides between error / descend into the last child / rotate / plain push from the operator
+    tables only.  All its paths are enumerated with symbolic operators (self S, last child L, inserted node N); the resulting
+    decision function is evaluated for every combination of operator-kind classes and compared with the reference decision of
+    precedence climbing derived from the documented rules:
+      enter(S,N)   = prec S < prec N  or  N prefix-like  or  S is the insertion root  or  (prec S = prec N and both right-to-left)
+      descend(L,N) = prec L < prec N  or  N prefix-like  or  (prec L = prec N and both right-to-left)
+      not enter -> error; S leaf -> error; S complete: descend -> recurse into L, else N leaf/group -> error, else rotate
+      (N adopts L as its left operand); S incomplete: N binary -> error, else push.
+    Together with T1-T3 (the tables) this fixes every single insertion step; the induction over the token sequence is not mechanised."""
+    try:
+        f, decide, n_paths = compile_insertion(prog, T)
+    except InsertionError as e:
+        ctx.unrecognised('T7', 'insert_back_prioritized', e.kind, e.msg, span=e.span)
+        return
+    Unknown = InsertionUnknown
+    ctx.counters['insert_decision_paths'] = n_paths
 
     prec, unary, l2r, leaf, arity = T['precedence'], T['is_unary'], T['is_left_to_right'], T['is_leaf'], T['max_argument_amount']
 
